@@ -11,7 +11,7 @@ for d in sorted(glob.glob("/verif/seeded/*/")):
     if ap.returncode != 0:
         rows.append((meta["seed_id"], "PATCH DOES NOT APPLY", "")); continue
     try:
-        out = sh("cd /verif && /venv/bin/python -m hsa check all", timeout=900).stdout
+        out = sh("cd /verif && HSA_NO_CANARY=1 /venv/bin/python -m hsa check all", timeout=900).stdout
     finally:
         sh("git -C /repo checkout -- .")
     viol = sorted(set(re.findall(r"VIOLATION property=(C\d+)", out)))
